@@ -8,6 +8,9 @@ mod markdown;
 mod yamlcfg;
 mod capture;
 mod render;
+mod cram;
+mod escaping;
+mod rules;
 
 use common::*;
 use std::sync::Mutex;
@@ -45,6 +48,9 @@ fn main() {
             "C17" => yamlcfg::replay(&prop, &r),
             "C13" => capture::replay(&prop, &r),
             "C19" => render::replay(&prop, &r),
+            "C07" => cram::replay(&prop, &r),
+            "C11" => escaping::replay(&prop, &r),
+            "C04" => escaping::replay(&prop, &r) && rules::replay(&prop, &r),
             _ => { eprintln!("no replay for {prop}"); false }
         };
         std::process::exit(if ok { 0 } else { 1 });
@@ -61,6 +67,13 @@ fn main() {
         "C17" => yamlcfg::run(&ctx, &prop),
         "C13" => capture::run(&ctx, &prop),
         "C19" => render::run(&ctx, &prop),
+        "C07" => cram::run(&ctx, &prop),
+        "C11" => escaping::run(&ctx, &prop),
+        "C04" => {
+            // string kinds (equal, no-eol, escaped) and pattern kinds (glob, cram glob, regex)
+            escaping::run(&ctx, &prop);
+            rules::run(&ctx, &prop);
+        }
         _ => { eprintln!("unknown property {prop}"); std::process::exit(2); }
     }
     let rep = ctx.report.lock().unwrap();
